@@ -20,7 +20,7 @@ LEVEL = "exploration"
 RULE = ("random well-typed EEMS models (3-18 commands over all built-in data commands, CSV tables of 2-14 rows with int and float "
         "columns and missing cells; a ledger forces every command into the sample) x {original, reversed, k random permutations, "
         "metadata variant, extra-consumer variant}; distinct by (sorted command multiset up to 8, depth, max fan-out, table dtype mix, has-missing)")
-REQUIRED_COUNTERS = ["node_postconditions", "read_results_compared", "variant_runs", "shared_results_compared_bit_exact", "same_path_reruns", "netcdf_models", "csv_models"]
+REQUIRED_COUNTERS = ["node_postconditions", "read_results_compared", "variant_runs", "shared_results_compared_bit_exact", "same_path_reruns", "netcdf_models", "csv_models", "eems2_histories"]
 
 
 def post_merge(counters, tier):
@@ -168,6 +168,13 @@ def run_case(ctx, case):
     t = model["table"]
     ctx.count("netcdf_models" if model.get("libs") == "nc" else "csv_models")
     ctx.feature((model.get("libs", "csv"), len(t.get("shape", [0])), tuple(sorted(c["cmd"] for c in model["commands"]))[:8], depth, fan, tuple(sorted(set(c["integer"] for c in t["cols"].values()))), t["missing"] is not None))
+    if case["rseed"] % 5 == 0:
+        from mpilot.program import Program
+        try:
+            Program.from_source('READ(InFileName = "nowhere.csv", InFieldName = Q, NewFieldName = Q2, OutFileName = "x")\nNOT(InFieldName = Q2)', working_dir=ctx.scratch())
+        except Exception:
+            pass
+        ctx.count("eems2_histories")
     base = _run_variant(ctx, model, ctx.scratch(), "original")
     if base in ("failed", "undefined"):
         return
